@@ -38,7 +38,7 @@ HARNESSES = [
        scenarios_quick=tb(3, (0, 1, 2)) + tb(4, (0,)) + [dict(MODE=0, N=5, STARTK=s, PERM=p) for s in (1, 3) for p in GROW5] +
                        [dict(MODE=0, N=9, STARTK=s, PERM=p) for s in (1, 3) for p in DEEP[:2]],
        scenarios_thorough=tb(4, (0, 1, 2)) + tb(5, (0,)) + tb(6, (1, 2), (1, 3)) + [dict(MODE=0, N=9, STARTK=s, PERM=p) for s in (1, 3) for p in DEEP],
-       timeout=1800, mem_gb=10,
+       timeout=900, mem_gb=10, thorough_override=dict(timeout=3600),
        desc='real input_buffer (try_put_token / try_to_spawn_task_for_next_token / grow / ctor) of one serial filter, N items: the solver chooses '
             'the arrival order (all N! orders) and every completion time; serial_in_order with upstream tokens (MODE 0), first ordered filter '
             '(MODE 1), serial_out_of_order (MODE 2); token counters started at 0 / wrapping 2^64 / 2^32 / 5 / 2^63. One item in the filter at a '
@@ -48,7 +48,7 @@ HARNESSES = [
   dict(name='ring_step', unit='ring', harness='h_ringstep.c', cbmc=['--unwind', '34', '--object-bits', '12'],
        scenarios_quick=[dict(KIND=k, OP=op, SZ=4) for k in (0, 1, 2) for op in (0, 1, 2)] + [dict(KIND=k, OP=1, SZ=8) for k in (0, 1, 2)],
        scenarios_thorough=[dict(KIND=k, OP=op, SZ=sz) for k in (0, 1, 2) for op in (0, 1) for sz in (4, 8)] + [dict(KIND=k, OP=2, SZ=4) for k in (0, 1, 2)],
-       timeout=1800, mem_gb=10,
+       timeout=900, mem_gb=10, thorough_override=dict(timeout=3600),
        desc='ONE operation of the real token ring from an ARBITRARY ring state satisfying the representation invariant (any 64-bit low_token, '
             'any set of parked items, symbolic payloads): try_put_token at any distance < 4*array_size (incl. grow x2 / x4: every parked item '
             're-homed by its token, unchanged, nothing else valid), try_to_spawn_task_for_next_token (exactly the next token released, others '
@@ -57,7 +57,7 @@ HARNESSES = [
                'put distance': '< 4*array_size (ring grows to <= 32 slots)', 'induction': 'histories of any length follow by induction on the '
                'invariant (paper argument); sizes > 8 not stepped'}),
   dict(name='tokenbuf_mt2', unit='mt_pd', harness='h_ring_mt.c', defines={'ROUNDS': 3, 'NT': 2}, cbmc=['--unwind', '34', '--object-bits', '12'],
-       scenarios=mt2((LWRAP,)), scenarios_thorough=mt2((LWRAP, '5UL', '4294967294UL'), rounds=4), timeout=900,
+       scenarios=mt2((LWRAP,)), scenarios_thorough=mt2((LWRAP, '5UL', '4294967294UL'), rounds=4), timeout=900, thorough_override=dict(timeout=3600),
        desc='real token ring under concurrency (Lazy-CSeq, context switch before every memory op): thread A try_put_token (arriving item) || '
             'thread B try_to_spawn_task_for_next_token (item leaving the filter); pre-parked items per scenario; upstream tokens / ring-assigned '
             'tokens / serial_out_of_order. Token order, one item inside at a time, exactly once, no item lost between park and release '
@@ -65,14 +65,14 @@ HARNESSES = [
        bounds={'threads': 2, 'free_rounds': '3 quick / 4 thorough', 'forced_rounds': 2, 'spin_unroll': 1, 'low_token': 'quick 2^64-1 (wraps); thorough also 5, 2^32-2',
                'grow': 'cut (every token fits into the initial ring); grow is covered by tokenbuf_seq / ring_step'}),
   dict(name='tokenbuf_mt3', unit='mt_ppd', harness='h_ring_mt.c', defines={'ROUNDS': 2, 'NT': 3}, cbmc=['--unwind', '34', '--object-bits', '12'],
-       scenarios=mt3((LWRAP,)), scenarios_thorough=mt3((LWRAP, '5UL'), rounds=3), timeout=1800,
+       scenarios=mt3((LWRAP,)), scenarios_thorough=mt3((LWRAP, '5UL'), rounds=3), timeout=900, thorough_override=dict(timeout=3600),
        desc='as tokenbuf_mt2 with two arriving items (threads A, C) racing with one completion (B): distinct tokens assigned under the lock, '
             'only the item whose turn it is enters the filter',
        bounds={'threads': 3, 'free_rounds': '2 quick / 3 thorough', 'forced_rounds': 2, 'spin_unroll': 1, 'low_token': '2^64-1; thorough also 5', 'grow': 'cut'}),
   dict(name='stage', unit='stage', harness='h_stage.c', cbmc=['--unwind', '40', '--object-bits', '12'],
        scenarios_quick=stage(3, 2, 2, Q3) + stage(2, 3, 2) + stage(1, 3, 2) + stage(3, 3, 1, [(1, 1, 1), (2, 3, 1), (1, 2, 3)]),
        scenarios_thorough=stage(3, 3, 2) + stage(2, 4, 3) + stage(2, 3, 1) + stage(1, 4, 3) + stage(4, 2, 2, [(2, 1, 2, 1), (1, 1, 3, 1), (1, 2, 1, 3), (3, 1, 1, 2), (2, 3, 2, 1)]),
-       timeout=1800, mem_gb=12,
+       timeout=900, mem_gb=12, thorough_override=dict(timeout=3600, mem_gb=20),
        desc='real pipeline/add_filter/stage_task::execute_filter/try_spawn_stage_task/spawn_stage_task/~stage_task + token rings, run as a task bag: '
             'the solver picks which spawned (or bypassed) task executes next, every order of one configuration in one query. live items <= '
             'max_number_of_live_tokens and idle input_tokens + live <= limit at every task boundary; every item through every filter exactly once '
@@ -92,6 +92,21 @@ HARNESSES += [
   dict(HARNESSES[0], name='tokenbuf_seq_mut', tiers=['mut'], scenarios_quick=None, scenarios_thorough=None, timeout=900,
        scenarios=tb(3, (0, 1, 2), (1, 3)) + [dict(MODE=0, N=5, STARTK=s, PERM=p) for s in (1, 3) for p in GROW5[1:]] + [dict(MODE=0, N=9, STARTK=3, PERM=DEEP[1])]),
 ]
+MANIFEST = dict(
+  level_text='Bounded symbolic execution / bounded model checking of the real src/tbb/parallel_pipeline.cpp. (1) Token ring of a serial filter '
+             '(input_buffer): for N<=5 items every arrival order and every completion timing is decided by the solver (plus concrete deep orders with '
+             '9 items that grow the ring twice), and one inductive step of try_put_token (incl. grow) / try_to_spawn_task_for_next_token from an '
+             'arbitrary ring state with any 64-bit low_token: items enter a serial filter one at a time, in token order, exactly once, nothing parked '
+             'is lost or damaged by growth. (2) The same ring under real concurrency (2-3 threads, every interleaving of single memory operations '
+             'within a bounded number of scheduling rounds, spin_mutex included). (3) Pipeline level: stage_task::execute_filter token accounting run '
+             'as a task bag over all task orders for 1-4 filters of every mode combination: live items never exceed max_number_of_live_tokens, every '
+             'item passes every filter exactly once, all serial_in_order filters see one common order, no serial filter is runnable twice at once, '
+             'and the wait is released exactly once, only after end of input and after every item left the last filter.',
+  level_note='Bounds per harness in evidence (items <= 9 per ring, ring sizes 4/8 as pre-state, <= 4 filters, <= 4 items, limit <= 3, threads <= 3, rounds 2-4). '
+             'Tasks are atomic at pipeline level (overlap of stage bodies is covered only for the token ring); scheduler entry points are harness stubs; '
+             'input_buffer::grow is cut in the thread-mode units. filter_may_emit_null inputs, cancellation and thread-bound filters are outside. '
+             'Sequential consistency. Trusted: clang-14 IR, tools/ir2c.py (ring unit validated per run by the selftest differential), cbmc.',
+)
 OUTSIDE = ['more than 9 items through one ring (sequences) / rings larger than 8 slots as pre-state of a step (32 after growth)',
            'true overlap of two stage_task::execute_filter bodies other than on the token ring (input_tokens/end_of_input are single atomic words; their protocol is checked at task granularity only)',
            'concurrent grow (input_buffer::grow is cut in the thread-mode units; it always runs under array_mutex)',
